@@ -451,7 +451,8 @@ def add_bench(m, path, indent, raw_name, form="plain", args=None, types=None, co
     elif ret_alloc:
         # a function without a Bencher whose output owns one 32-byte allocation: the allocation is timed,
         # the output's destructor (the deallocation) runs after the end
-        body_text = "%s; Vec::<u8>::with_capacity(32)" % call
+        # (ret_alloc may name another size: sizes whose rendering keeps only zeros after the point, such as 10,004 B)
+        body_text = "%s; Vec::<u8>::with_capacity(%d)" % (call, 32 if ret_alloc is True else ret_alloc)
     else:
         body_text = "%s;" % call
     if pre:
@@ -475,7 +476,7 @@ def add_bench(m, path, indent, raw_name, form="plain", args=None, types=None, co
         "line": loc_line, "col": indent + 1, "fn_line": fn_line, "form": form, "args": labels, "args_kind": args,
         "types": list(types) if types is not None else None, "consts": const_labels, "type_first": type_first,
         "options": dict((disp(k), v) for k, v in (options or [])), "ignore": (True if ignore_attr or any(disp(k) == "ignore" and v in (None, "true") for k, v in (options or [])) else (False if any(disp(k) == "ignore" and v == "false" for k, v in (options or [])) else None)),
-        "style": bencher_style if form == "bencher" else ("plain_alloc_out" if ret_alloc else None), "body": body, "cost": cost,
+        "style": bencher_style if form == "bencher" else ("plain_alloc_out" if ret_alloc else None), "alloc_size": (32 if ret_alloc is True else ret_alloc) if ret_alloc else None, "body": body, "cost": cost,
         "gen_cost": 3000 if (form == "bencher" and bencher_style == "values_costly") else 0,
         "expect_options": expect_options, "const_ty": const_ty if consts is not None else None,
     }
